@@ -9,7 +9,7 @@ PY = "/venv/bin/python"
 CHECKS = {
     "C16": (
         "explicit-state enumeration of all loss orderings on the real loops + TLC-verified TLA+ models with every maximal path replayed on the implementation (distinct losses: equality with the model; losses with ties and +inf: trace inclusion in a non-deterministic model)",
-        "Every permutation of distinct losses up to length L (quick 4, thorough 6), every max_patience, return_best and 1-3 batches per epoch is run through the real fit_to_data / fit_to_variational_target with a scripted loss and counting optimiser and compared with a reference of the documented behaviour; independently TLC verifies the protocol invariants on models/EarlyStop.tla and models/VarFit.tla and all maximal paths of the dumped state graph are replayed against the real loops. Losses with ties (and +inf): models/EarlyStopTies.tla and models/VarFitTies.tla are non-deterministic exactly where the statement is ambiguous; TLC verifies the tie-aware invariants and the real loops, run on every loss word over 1..3 of length <= L (quick 4, thorough 5), must exhibit one of the model's behaviours for that word.",
+        "Every permutation of distinct losses up to length L (quick 4, thorough 6), every max_patience, return_best and 1-3 batches per epoch is run through the real fit_to_data / fit_to_variational_target with a scripted loss and counting optimiser and compared with a reference of the documented behaviour; independently TLC verifies the protocol invariants on models/EarlyStop.tla and models/VarFit.tla and all maximal paths of the dumped state graph are replayed against the real loops. Losses with ties (and +inf): models/EarlyStopTies.tla and models/VarFitTies.tla are non-deterministic exactly where the statement is ambiguous (one reading of 'since the best loss' per run; any arg-min as best); TLC verifies the tie-aware invariants and the real loops, run on every loss word over 1..3 of length <= L (quick 5, thorough 6), must exhibit one of the model's behaviours for that word.",
         "Bounded history length; NaN losses not enumerated; optimiser/loss are user-supplied extension points (no source hooks); TLC trusted.",
         "DESIGN.md section 3 C16, section 4",
     ),
